@@ -22,6 +22,7 @@ to account for:
     may also differ.
 """
 
+from copy import copy
 from tangelo.linq.helpers import pauli_of_to_string
 
 
@@ -180,6 +181,7 @@ def translate_c_to_sympy(source_circuit):
     for gate in reversed(source_circuit._gates):
         # If the parameter is a string, we use it as a variable.
         if gate.parameter and isinstance(gate.parameter, str):
+            gate = copy(gate)  # the source circuit keeps its string parameter
             gate.parameter = symbols(gate.parameter, real=True)
 
         if gate.name in {"H", "X", "Y", "Z"}:
